@@ -290,4 +290,27 @@ def transSem {K : Type _} (s : TransSig) (A : Mat K) (T : Mat K) : Mat K :=
     forN (bound s.extI A.rows A.cols) (fun n T =>
       T.upd (sel s.tr o n) (sel s.tc o n) (A.e (sel s.sr o n) (sel s.sc o n))) T) T
 
+/-! ### handle types (scalarvectorview.hh, scalarmatrixview.hh, transpose.hh)
+
+A `ScalarVectorView` / `ScalarMatrixView` is a handle onto a scalar variable, a `TransposedMatrixWrapper` made by
+`transposedView` a handle onto a matrix: their state is not a list of entries but *which storage they refer to*. -/
+
+/-- what an assignment operator of a scalar view does -/
+inductive HAssign where
+  /-- `*dataP_ = *(other.dataP_)` / `*dataP_ = k`: the scalar behind the view receives the value -/
+  | copyEntry
+  /-- `dataP_ = other.dataP_`: the handle is re-pointed; the scalar it referred to keeps its value -/
+  | reseat
+  /-- ScalarMatrixView: `data_ = other.data_` / `data_ = k`, i.e. whatever the assignment operator of its row view does -/
+  | viaRow
+  deriving DecidableEq, Repr
+
+/-- what `transposedView(A)` holds -/
+inductive ViewHold where
+  /-- a reference to `A`: later changes of `A` are seen through the view -/
+  | reference
+  /-- a copy of `A` taken when the view was made -/
+  | copy
+  deriving DecidableEq, Repr
+
 end DV.C01
